@@ -47,6 +47,50 @@ def invalid_family():
     return out
 
 
+def structured_family():
+    """accepted programs aimed at mechanisms through which declaration order could leak: (name, program in dependency order).
+    The reference is evaluated on the given (dependency) order; every permutation must reproduce it."""
+    from bsyntax import (Program, Func, Class, Ctor, Method, Field, Param, P, C, VOID, I, S, Var, New, Decl, Echo, Ret, Expr, Call,
+                         MCall, Asg, Bin, Fld, FAsg, This, SFld, Super)
+    out = []
+    counter = Class("Counter", "", [Field(P("int"), "n")],
+                    [Method("bump", [], P("int"), [Expr(FAsg(This(), "n", Bin("+", Fld(This(), "n"), I(1)))), Ret(Fld(This(), "n"))])],
+                    [Ctor([Param(P("int"), "s")], [Expr(FAsg(This(), "n", Var("s")))])], [])
+    # 1. a call result dereferenced directly, callee before / after every caller
+    out.append(("call result dereferenced", Program([
+        Func("makeCounter", [Param(P("int"), "s")], C("Counter"), [Ret(New("Counter", Var("s")))]),
+        Func("useIt", [], P("int"), [Ret(MCall(Call("makeCounter", I(1)), "bump"))]),
+        Func("fieldIt", [], P("int"), [Ret(Fld(Call("makeCounter", I(5)), "n"))]),
+        Func("main", [], VOID, [Echo(Call("useIt")), Echo(Call("fieldIt")), Echo(MCall(Call("makeCounter", I(40)), "bump"))])], [counter])))
+    # 2. the same through a method returning an object and a generic instantiation
+    box = Class("Box", "", [Field(P("T"), "v")], [Method("get", [], P("T"), [Ret(Fld(This(), "v"))])],
+                [Ctor([Param(P("T"), "x")], [Expr(FAsg(This(), "v", Var("x")))])], [], tparams=["T"])
+    out.append(("generic call result dereferenced", Program([
+        Func("mkBox", [Param(P("int"), "s")], C("Box", [P("int")]), [Ret(New("Box", Var("s"), targs=[P("int")]))]),
+        Func("peek", [], P("int"), [Ret(Fld(Call("mkBox", I(7)), "v"))]),
+        Func("main", [], VOID, [Echo(Call("peek")), Echo(MCall(Call("mkBox", I(8)), "get"))])], [box])))
+    # 3. a bounded type parameter whose bound is declared before / after the generic class
+    shape = Class("Shape", "", [Field(P("int"), "s")], [], [Ctor([Param(P("int"), "x")], [Expr(FAsg(This(), "s", Var("x")))])], [])
+    holder = dict(Class("Holder", "", [Field(P("T"), "item")], [Method("size", [], P("int"), [Ret(Fld(Fld(This(), "item"), "s"))])],
+                        [Ctor([Param(P("T"), "x")], [Expr(FAsg(This(), "item", Var("x")))])], [], tparams=["T"]), tbounds={"T": "Shape"})
+    out.append(("bounded type parameter", Program([
+        Func("main", [], VOID, [Decl(C("Holder", [C("Shape")]), "h", New("Holder", New("Shape", I(3)), targs=[C("Shape")])), Echo(MCall(Var("h"), "size"))]),
+        Func("pad", [], P("int"), [Ret(I(1))])], [shape, holder])))
+    # 4. static initialisers reading another class's static (dependency order: A, B, Cc)
+    a = Class("A", "", [Field(P("int"), "x", I(5), static=True)], [], [Ctor([], [], default=True)], [])
+    b = Class("B", "", [Field(P("int"), "y", Bin("+", SFld("A", "x"), I(1)), static=True)], [], [Ctor([], [], default=True)], [])
+    cc = Class("Cc", "", [Field(P("int"), "z", Bin("*", SFld("B", "y"), I(2)), static=True)], [], [Ctor([], [], default=True)], [])
+    out.append(("cross-class static initialisers", Program([Func("main", [], VOID, [Echo(SFld("Cc", "z")), Echo(SFld("B", "y")), Echo(SFld("A", "x"))])], [a, b, cc])))
+    # 5. a class deriving from a generic instantiation whose template derives from a plain class
+    base0 = Class("Base0", "", [Field(P("int"), "b0", I(1))], [], [Ctor([], [])], [])
+    g = Class("G", "Base0", [Field(P("int"), "g", I(2))], [], [Ctor([], [Super()])], [], tparams=["T"])
+    d = Class("D", "G", [Field(P("int"), "d", I(3))],
+              [Method("show", [], VOID, [Echo(Fld(This(), "b0")), Echo(Fld(This(), "g")), Echo(Fld(This(), "d"))])],
+              [Ctor([], [Super()])], [], base_targs=[P("int")])
+    out.append(("generic base over a plain base", Program([Func("main", [], VOID, [Decl(C("D"), "x", New("D")), Expr(MCall(Var("x"), "show"))])], [base0, g, d])))
+    return out
+
+
 def run(tier, seed):
     t0 = time.time()
     out = vlib.Outcome(PID)
@@ -84,9 +128,28 @@ def run(tier, seed):
             jid = len(jobs)
             inv_jobs[jid] = (what, list(order))
             jobs.append({"id": jid, "src": bsyntax.render(p, order=list(order)), "gc": "none", "stage": "front"})
+    # structured accepted programs: every permutation of the declarations
+    struct = structured_family()
+    struct_oracle = semrun.tlc_oracle([(k, p) for k, (_, p) in enumerate(struct)])
+    struct_jobs = {}
+    for k, (what, p) in enumerate(struct):
+        if struct_oracle[k]["status"] != "ok" or not struct_oracle[k]["out"]:
+            raise vlib.Infra("structured program '%s' has no usable reference: %s" % (what, struct_oracle[k]))
+        decls = [("c", i) for i in range(len(p["classes"]))] + [("f", i) for i in range(len(p["funcs"]))]
+        for order in itertools.permutations(decls):
+            jid = len(jobs)
+            struct_jobs[jid] = (k, what, list(order))
+            jobs.append({"id": jid, "src": bsyntax.render(p, order=list(order)), "gc": "none"})
     res = runner.run_jobs(jobs)
     bad = {}
-    for jid, (bi, order) in meta.items():
+    for jid, (k, what, order) in struct_jobs.items():
+        meta[jid] = (what, order)
+        m = semrun.compare(struct_oracle[k], res[jid])
+        if m:
+            bad[jid] = "%s: %s" % (what, m)
+    for jid, (bi, order) in list(meta.items()):
+        if jid in struct_jobs:
+            continue
         m = semrun.compare(oracle[bi], res[jid])
         if m:
             bad[jid] = m
@@ -107,7 +170,7 @@ def run(tier, seed):
                                                      "reference": oracle.get(bi) if isinstance(bi, int) else bi, "interpreter": res[jid]}, "perm%d" % jid)
     cov = {"evaluations": len(jobs), "distinct_nontrivial": len({j["src"] for j in jobs}),
            "base_programs": len(base), "orders_run": len(jobs), "shots_annotation_orders": len(shots_jobs),
-           "invalid_program_orders": len(inv_jobs),
+           "invalid_program_orders": len(inv_jobs), "structured_program_orders": len(struct_jobs),
            "samples": [{"order": meta[1][1], "program": jobs[1]["src"][:1500]}],
            "rule": "for each base program (classes incl. derived/base chains of depth <= 3, generic classes, functions calling forward "
                    "with 0-3 arguments, results used or discarded) every permutation of its top-level declarations when there are <= 4 of "
